@@ -376,7 +376,9 @@ class Interp:
                 self._list_setitem(base, idx, v)
             elif isinstance(base, Term) and base.op == "arritem" and isinstance(base.kw.get("arr"), ObjV):
                 arr = base.kw["arr"]
-                arr.stores.append((tuple(self.frames), TupleV([base.args[1], idx]), v, None, stmt))
+                full_ = isinstance(idx, Term) and idx.op == "slice" and all(isinstance(y_, Const) and y_.v is None for y_ in idx.args)
+                # X[i][:] = v  (also through a row view obtained by iterating X) is the row store X[i] = v
+                arr.stores.append((tuple(self.frames), base.args[1] if full_ else TupleV([base.args[1], idx]), v, None, stmt))
                 self._touch(arr)
             elif isinstance(base, (Grid, Term, Num)):
                 # functional arrays: rebind the plain name to a 'setitem' term (sound only if the value has no alias,
@@ -665,6 +667,10 @@ class Interp:
             d0, d1 = it.attrs["dims"].items_p
 
             def fn_arr(i, it=it, d1=d1):
+                fill_ = it.attrs.get("fill")
+                if not it.stores and (fill_ is None or (isinstance(fill_, Term) and fill_.op == "uninitialised")):
+                    # rows of an array that is still being filled (np.empty): a row VIEW, `row[:] = v` writes row i of the array
+                    return Term("arritem", [Const(it.uid), Num(i)], {"arr": it})
                 c = self.fresh_idx("c")
                 return Grid([[(c, d1)]], Num(Poly.app("arrat", f"arr#{it.uid}", i, Poly.atom(c))))
             return d0, fn_arr, ("ndarray", it)
